@@ -62,6 +62,10 @@ def main(tier):
                 runs.append((f"{rng.seed()}/{seed}/{observe}/{mode}", observe, mode, 140 if thorough else 80))
     for observe in ("server", "client"):
         runs.append((f"{rng.seed()}/burst/{observe}", observe, "burst", 100))
+    # every stream-addressed frame type x every stream lifecycle state, alone in a new-highest packet
+    for seed in range(12 if thorough else 2):
+        for observe in ("server", "client"):
+            runs.append((f"{rng.seed()}/streams{seed}/{observe}", observe, "streams", 0))
     # dense trains: arrivals closer than the ack delay for longer than max_ack_delay
     for seed in range(40 if thorough else 6):
         for observe in ("server", "client"):
@@ -78,11 +82,12 @@ def main(tier):
         tot["ack_frames_checked"] += orc.acks_checked
         tot["timely_checked"] += orc.timely_checked
         tot["next_tx_checked"] += orc.nexttx_checked
+        tot["armed_checked"] = tot.get("armed_checked", 0) + orc.armed_checked
         tot["max_latency_ms"] = max(tot["max_latency_ms"], round(orc.max_latency * 1000, 3))
         tot["spins"] += len(spins)
         ctx.count((seed, observe, mode), obs.acks_written > 0 and any(l.startswith("ack.rx") and l.split()[-1] != "-" for l in obs.lines))
         # property oracles on the implementation's own wire trace
-        for kind, text in orc.problems[:2]:
+        for kind, text in orc.problems:
             witness_once(ctx, text, replay, {"oracle": "wire", "kind": kind})
         for ep in sim.endpoints:
             for name, e in ep.raised:
@@ -104,6 +109,10 @@ def main(tier):
         "at chosen numbers (next, +1, +2, +5, or up to 12 behind), 20% not ack-eliciting, datagrams (ACKs, ACK-of-ACK "
         "carriers) lost 25% / duplicated 15% / reordered, stream data both ways, time advancing 0..30 ms with every timer "
         "fired exactly when get_timer() asks (all oracles); plus 800 alternate packet numbers with every ACK lost; plus dense "
+        "STREAM / STREAM+FIN / RESET_STREAM / STOP_SENDING / MAX_STREAM_DATA / STREAM_DATA_BLOCKED alone in a new-highest packet for "
+        "streams never opened / open / half-closed / reset / finished-and-discarded (client- and server-opened), time then run "
+        "to max_ack_delay; ack-elicitation is decided by the harness from the plaintext frames (RFC 9002 2) and compared with "
+        "the connection's armed ack timer after every receive_datagram; plus dense "
         "trains of ack-eliciting packets 0.1-0.9 ms apart (below the 1 ms ack delay) lasting 50-100 ms (2x-4x max_ack_delay), "
         "receiver idle or sending, its datagrams delivered or lost, clock advanced in sub-millisecond steps. "
         "Non-trivial = ACK frames were written and ACK-of-ACK deliveries pruned the queue."
